@@ -26,6 +26,7 @@ use hsim::Rng;
 use serde::{Deserialize, Serialize};
 use serde_json::Value;
 
+use super::denial_ref::{nsec3_entails, nsec_entails, ClaimKind, Nsec3Fact, NsecFact};
 use super::dnssec::{anchors_for, build_zone, KeyRef, Nx, Router, World, ZoneRt, ZoneSpec};
 use super::update::finish;
 
@@ -456,6 +457,54 @@ fn predecessor_proof(qname: &Name, harvested: &[Denial], nsec3: Option<&(Vec<u8>
         }
     }
     picked
+}
+
+/// the denial records of `delivered` an honest validator may rest on: genuine records of the
+/// zone (data and owner unchanged) that arrive together with one of their genuine RRSIGs
+fn usable_facts(delivered: &Message, genuine: &[&Denial]) -> (Vec<NsecFact>, Vec<Nsec3Fact>) {
+    let (mut v1, mut v3) = (Vec::new(), Vec::new());
+    for r in delivered.authorities.iter().filter(|r| matches!(r.record_type(), RecordType::NSEC | RecordType::NSEC3)) {
+        let Some(d) = genuine.iter().find(|d| d.owner == r.name && d.records.iter().any(|g| g.data == r.data)) else { continue };
+        let signed = delivered.authorities.iter().any(|s| s.name == r.name && s.record_type() == RecordType::RRSIG && is_denial(s) && d.records.iter().any(|g| g.data == s.data));
+        if !signed {
+            continue;
+        }
+        match &r.data {
+            RData::DNSSEC(DNSSECRData::NSEC(x)) => v1.push(NsecFact { owner: r.name.clone(), next: x.next_domain_name().clone(), types: x.type_bit_maps().collect() }),
+            RData::DNSSEC(DNSSECRData::NSEC3(x)) => {
+                let Some(oh) = r.name.iter().next().and_then(data_encoding_decode) else { continue };
+                v3.push(Nsec3Fact { owner_hash: oh, next_hash: x.next_hashed_owner_name().to_vec(), types: x.type_bit_maps().collect(), opt_out: x.opt_out(), salt: x.salt().to_vec(), iterations: x.iterations() });
+            }
+            _ => {}
+        }
+    }
+    (v1, v3)
+}
+
+/// the response validated once more without its last-of-chain NSEC3 record (owner hash > next
+/// hash): `Some(still secure)`, or `None` when the response holds no such record
+async fn secure_without_wrap(router: &Router, delivered: &Message, victim: &Query, opts: DnsRequestOptions, p: &Plan) -> Option<bool> {
+    let is_wrap = |r: &Record| match &r.data {
+        RData::DNSSEC(DNSSECRData::NSEC3(n)) => r.name.iter().next().and_then(data_encoding_decode).map(|own| own.as_slice() > n.next_hashed_owner_name()).unwrap_or(false),
+        _ => false,
+    };
+    let wo: Name = delivered.authorities.iter().find(|r| is_wrap(r)).map(|r| r.name.clone())?;
+    let mut m2 = delivered.clone();
+    m2.authorities.retain(|r| !(r.name == wo && is_denial(r)));
+    let victim3 = victim.clone();
+    router.set_tamper(move |_n, q, genuine| if *q == victim3 { (Some(m2.clone()), true) } else { (Some(genuine), false) });
+    let v2 = DnssecDnsHandle::with_trust_anchor(router.clone(), anchors_for(&[KeyRef::ed(0)])).nsec3_iteration_limits(Some(p.soft_limit), Some(p.hard_limit));
+    let r2 = v2.lookup(victim.clone(), opts).next().await;
+    // (a response left without any NSEC3 record is no longer accepted "on the strength of NSEC3
+    // records", whatever the proofs of its remaining SOA / NS records say)
+    let still_has_denial = delivered.authorities.iter().any(|r| r.record_type() == RecordType::NSEC3 && r.name != wo);
+    Some(match &r2 {
+        Some(Ok(resp)) => {
+            let all: Vec<&Record> = resp.answers.iter().chain(resp.authorities.iter()).filter(|r| r.record_type() != RecordType::RRSIG).collect();
+            still_has_denial && !all.is_empty() && all.iter().all(|r| r.proof == Proof::Secure)
+        }
+        _ => false,
+    })
 }
 
 fn is_denial(r: &Record) -> bool {
@@ -965,28 +1014,12 @@ async fn scenario(p: Plan) {
                 // (the last NSEC3 record of the chain, owner hash > next hash, "covers" every
                 // hash): the same response without that record is validated again; if it is then
                 // no longer accepted, the false denial needed the record.
-                let is_wrap = |r: &Record| match &r.data {
-                    RData::DNSSEC(DNSSECRData::NSEC3(n)) => r.name.iter().next().and_then(data_encoding_decode).map(|own| own.as_slice() > n.next_hashed_owner_name()).unwrap_or(false),
-                    _ => false,
-                };
-                let wrap_owner: Option<Name> = delivered.authorities.iter().find(|r| is_wrap(r)).map(|r| r.name.clone());
                 let mut needs_wrap = false;
-                if let (Some(wo), true) = (&wrap_owner, matches!(claim, Claim::NxDomain | Claim::NoData)) {
-                    let mut m2 = delivered.clone();
-                    m2.authorities.retain(|r| !(r.name == *wo && is_denial(r)));
-                    let victim3 = victim.clone();
-                    router.set_tamper(move |_n, q, genuine| if *q == victim3 { (Some(m2.clone()), true) } else { (Some(genuine), false) });
-                    let v2 = DnssecDnsHandle::with_trust_anchor(router.clone(), anchors_for(&[KeyRef::ed(0)])).nsec3_iteration_limits(Some(p.soft_limit), Some(p.hard_limit));
-                    let r2 = v2.lookup(victim.clone(), opts).next().await;
-                    let secure2 = match &r2 {
-                        Some(Ok(resp)) => {
-                            let all: Vec<&Record> = resp.answers.iter().chain(resp.authorities.iter()).filter(|r| r.record_type() != RecordType::RRSIG).collect();
-                            !all.is_empty() && all.iter().all(|r| r.proof == Proof::Secure)
-                        }
-                        _ => false,
-                    };
-                    needs_wrap = !secure2;
-                    exec::count(if needs_wrap { "probe.false-denial.needs-last-nsec3" } else { "probe.false-denial.without-last-nsec3" });
+                if matches!(claim, Claim::NxDomain | Claim::NoData) {
+                    if let Some(still_secure) = secure_without_wrap(&router, &delivered, &victim, opts, &p).await {
+                        needs_wrap = !still_secure;
+                        exec::count(if needs_wrap { "probe.false-denial.needs-last-nsec3" } else { "probe.false-denial.without-last-nsec3" });
+                    }
                 }
                 // (one defect, one key: which truth class the false denial contradicts does not
                 // distinguish anything once it is established that the last-of-chain record is
@@ -994,6 +1027,47 @@ async fn scenario(p: Plan) {
                 let shape = if needs_wrap { "false-denial:needs-last-nsec3".to_string() } else { format!("{:?}-for-{}{}", claim, outcome_name(&outcome).split("-below").next().unwrap().trim_end_matches(|c: char| c.is_ascii_digit()).trim_end_matches('-'), if has_soa { "" } else { ":no-soa" }) };
                 if exec::violate(&format!("{id}.unsound"), &shape, format!("{} {}: response claiming {:?} (rcode {:?}, {} answers) accepted as Secure, but the zone says {:?}; rewrites {:?}; owners {:?}; opt_out={} delegation={:?}", victim.name, qt, claim, rcode, answer_recs.len(), outcome, p.rewrites, p.owners, p.opt_out, p.delegation)) {
                     return;
+                }
+            }
+            // ---- entailment: Secure only if the usable records prove the claim (whether or not
+            // the claim happens to be true in this zone) ------------------------------------------
+            // a referral (NOERROR, no answer, no SOA, NS RRset of a delegation point on the way to
+            // the query name) is not a negative answer: the NSEC/NSEC3 next to it speaks for DS only
+            let apex_name = n("example.");
+            let referral_shape = rcode == ResponseCode::NoError && answer_recs.is_empty() && !delivered.authorities.iter().any(|r| r.record_type() == RecordType::SOA) && delivered.authorities.iter().any(|r| r.record_type() == RecordType::NS && r.name != apex_name && r.name.zone_of(&victim.name));
+            if secure && claim_true && claim != Claim::Positive && !referral_shape {
+                let genuine: Vec<&Denial> = harvested.iter().chain(alt_harvest.iter()).collect();
+                let (f1, f3) = usable_facts(&delivered, &genuine);
+                let ck = match claim {
+                    Claim::NxDomain => ClaimKind::NxDomain,
+                    Claim::NoData => ClaimKind::NoData,
+                    _ => ClaimKind::Expansion(wildcard_labels.unwrap_or(0)),
+                };
+                let apex = n("example.");
+                let verdict = if !involves_denial {
+                    // no NSEC/NSEC3 record at all: nothing is accepted "on the strength of" denial
+                    // records; legitimate at or below an insecure delegation (referral), otherwise
+                    // a signed zone's negative answer was taken as Secure without any proof
+                    if matches!(outcome, Outcome::Referral) { Ok(()) } else { Err("no-denial-records".to_string()) }
+                } else if p.nsec3 {
+                    nsec3_entails(&apex, &victim.name, qt, ck, &f3, false)
+                } else {
+                    nsec_entails(&apex, &victim.name, qt, ck, &f1)
+                };
+                exec::count(if verdict.is_ok() { "probe.entailment.proved" } else { "probe.entailment.not-proved" });
+                if let Err(mut reason) = verdict {
+                    // the recorded wrap-around defect: the proof is complete once the last-of-chain
+                    // record is read the way `find_covering_record` reads it, and the validator no
+                    // longer accepts the response without that record
+                    if p.nsec3 && involves_denial && nsec3_entails(&apex, &victim.name, qt, ck, &f3, true).is_ok() && secure_without_wrap(&router, &delivered, &victim, opts, &p).await == Some(false) {
+                        exec::count("probe.unproven.needs-last-nsec3");
+                        reason = "needs-last-nsec3".into();
+                    }
+                    let has_soa = delivered.authorities.iter().any(|r| r.record_type() == RecordType::SOA);
+                    let shape = if reason == "needs-last-nsec3" { reason.clone() } else { format!("{:?}:{reason}{}", claim, if has_soa { "" } else { ":no-soa" }) };
+                    if exec::violate(&format!("{id}.unproven"), &shape, format!("{} {}: response claiming {:?} (rcode {:?}) accepted as Secure although the usable records do not prove it ({reason}); zone truth {:?}; usable NSEC {:?} NSEC3 {}; delivered authority {:?}; rewrites {:?}; owners {:?}; opt_out={} delegation={:?}", victim.name, qt, claim, rcode, outcome, f1.iter().map(|f| format!("{}->{}", f.owner, f.next)).collect::<Vec<_>>(), f3.len(), delivered.authorities.iter().map(|r| format!("{} {}", r.name, r.record_type())).collect::<Vec<_>>(), p.rewrites, p.owners, p.opt_out, p.delegation)) {
+                        return;
+                    }
                 }
             }
             // (a positive, non-expanded answer rests on its RRSIGs, not on NSEC3 records)
